@@ -3,6 +3,9 @@
 import json, subprocess
 
 CHECKS = {
+ "C12": ("exploration", "differential testing of shorthand rules against mechanically produced expansions (AST transformations) + exhaustive group-letter slice",
+         "Condensed rules vs their sub-rules, `_,X` vs `X_ , _X'`, group letters vs the manual's matrices (also exhaustively over all segments), optionals vs the environment set of their explicit repetitions, and `A B > &` vs `A=1 B=2 > 2 1` are generated as pairs on the harness's own AST and applied to the same words; both sides must fail or give structurally equal words.",
+         "Trusted: the AST transformations (written from the manual) and the structural hook. The long-segment metathesis divergence is a listed known finding.", "DESIGN.md §5 C12"),
  "C10": ("exploration", "metamorphic testing over generated rule sequences and the shipped example project: staged == at-once == regrouped",
          "For generated rule sequences and for every .rsca file of the shipped Indo-European project, the result of running all rules at once is compared (public API, rendered strings) with running a prefix, re-parsing its rendered output and running the rest — for every split point — and with the same rules regrouped with empty groups interleaved.",
          "Only splits whose intermediate text has no � are judged. A divergence is attributed to a listed C08/C09 finding only after the intermediate word (fetched structurally for the diagnosis) has been shown to be ill-formed in a listed way or to contain a segment that does not round-trip on its own; every other divergence alarms.", "DESIGN.md §5 C10"),
